@@ -637,13 +637,13 @@ func (ex *Exec) fmtUintAlts(st *State, v *Term, base int, upper bool) []Alt {
 		if !last {
 			hi = pow * 10
 		}
-		st.fresh++
 		ds := make([]*Term, k)
 		sum := mkBV(64, 0)
 		p := uint64(1)
 		var cs []*Term
 		for i := 0; i < k; i++ {
-			d := mkVar(fmt.Sprintf("digit#%d.%d.%d", st.fresh, k, i), SBV(8))
+			// named after the value term: formatting the same value twice yields the same digits
+			d := mkVar(fmt.Sprintf("digit.t%d.%d.%d", v64.id, k, i), SBV(8))
 			ds[i] = d
 			cs = append(cs, mkCmp(OpUle, d, mkBV(8, 9)))
 			sum = mkBin(OpAdd, sum, mkBin(OpMul, mkZext(d, 64), mkBV(64, p)))
